@@ -133,3 +133,53 @@ def r19_3(ctx):
     from .c09 import r09_8, r09_11
     r09_8(ctx)     # per-stage parameter values are independent (what stage.value(p) arguments address)
     r09_11(ctx)    # a value for a concatenation of symbols is split by their sizes
+
+
+def _to_function_closure(P, cname):
+    root = P.method(cname, "to_function")
+    seen, _ = P.reachable([root], concrete=cname, max_depth=3, stop=lambda f: f.cls is None)
+    return root, [f for f in seen.values() if f.cls is not None and f.name == "to_function"]
+
+
+@rule("R19.4", min_instances=3, desc="guesses that the imperative pipeline derives for hidden decision variables are derived by to_function too: local time-grid variables (from the T/t0 guess) and the helper states of every stage's method")
+def r19_4(ctx):
+    """The imperative side: Stage.set_initial -> <method>.apply_initial derives the guesses of T_local/t0_local from the T/t0 guess
+    (SamplingMethod.apply_initial) and DirectCollocation.set_initial spreads a state guess over the collocation helper states; for a
+    multi-stage OCP this happens per stage (R10.11).  to_function must mirror each of them, otherwise f(guess) starts the solver
+    elsewhere than set_initial(guess); solve() does (D75, D76: known findings)."""
+    P = ctx.prog
+    # (a) hidden variables whose guess apply_initial derives
+    derived = {}
+    for cname in P.subclasses("DirectMethod"):
+        f = P.own_method(cname, "apply_initial") if P.cls(cname).methods.get("apply_initial") else None
+        if f is None:
+            continue
+        for st in walk_no_nested(f.node):
+            if isinstance(st, ast.Assign) and isinstance(st.targets[0], ast.Subscript) and isinstance(st.targets[0].value, ast.Name):
+                key = st.targets[0].slice
+                base = key
+                while isinstance(base, ast.Subscript):
+                    base = base.value
+                if isinstance(base, ast.Attribute) and isinstance(base.value, ast.Name) and base.value.id == "self":
+                    derived.setdefault((cname, base.attr), f)
+    if not derived:
+        raise AnalysisError("no derived guesses for hidden variables found in any apply_initial (anchor moved?)")
+    for (cname, attr), f in sorted(derived.items()):
+        concrete = [c for c in P.subclasses(cname) if c != cname and not P.subclasses(c)[1:]] or [cname]
+        missing = []
+        for c in concrete:
+            root, chain = _to_function_closure(P, c)
+            if not any(isinstance(x, ast.Attribute) and x.attr == attr and isinstance(x.value, ast.Name) and x.value.id == "self" for g in chain for x in ast.walk(g.node)):
+                missing.append(c)
+        ctx.check(not missing, "to_function derives the guess of the hidden variables %s.%s like apply_initial does" % (cname, attr),
+                  detail="to_function(.., [ocp.T or ocp.t0], ..) leaves the local time-grid variables at their old guess: f(T_guess) starts elsewhere than set_initial(ocp.T, T_guess); solve()",
+                  expected="a to_function in the MRO of every sampling method that feeds self.%s from the T/t0 argument" % attr, found="not referenced by the to_function of: %s" % ", ".join(missing) if missing else "referenced", fi=f,
+                  sample={"class": cname, "hidden": attr, "concrete": concrete})
+    # (b) the stage tree
+    g = P.own_method("Ocp", "to_function")
+    d = P.own_method("DirectMethod", "to_function")
+    tree = [x for h in (g, d) for x in ast.walk(h.node) if isinstance(x, ast.Attribute) and x.attr in ("iter_stages", "_stages")]
+    overriders = [c for c in P.subclasses("DirectMethod") if c != "DirectMethod" and "to_function" in P.cls(c).methods]
+    ctx.check(bool(tree) or not overriders, "Ocp.to_function consults the method of every stage", detail="multi-stage OCP: the helper-state initialisers of the stages' methods (%s.to_function) never run: Ocp.to_function delegates to the master's plain DirectMethod only" % "/".join(overriders),
+              expected="a walk over iter_stages(include_self=True) letting every stage's method contribute its hidden arguments", found="self._method.to_function(self, ..) only", fi=g,
+              sample={"overriders": overriders})
